@@ -282,7 +282,9 @@ func replayStream(in io.Reader, rep *Report, fnd *Findings, workers int) error {
 				rep.infra("undecodable generator line: " + e.Error())
 			} else {
 				rep.Lines++
-				if gl.Pool != nil {
+				if hasOtherFamily(gl.Fam) {
+					dispatchOther(s, gl.Fam, rep, fnd)
+				} else if gl.Pool != nil {
 					poolMu.Lock()
 					pools[gl.Fam] = gl.Pool
 					poolMu.Unlock()
@@ -314,6 +316,15 @@ func getCursorStringSafe(c store_Cursor) (s string) {
 
 // families whose lines are not (doc, cases): filled in by other files
 var otherFamilies = map[string]func(line string, rep *Report, fnd *Findings){}
+
+func hasOtherFamily(fam string) bool {
+	for prefix := range otherFamilies {
+		if strings.HasPrefix(fam, prefix) {
+			return true
+		}
+	}
+	return false
+}
 
 func dispatchOther(line, fam string, rep *Report, fnd *Findings) {
 	for prefix, fn := range otherFamilies {
